@@ -32,6 +32,9 @@ type config struct {
 	// Divergent: before the load, one more thread installs a private filter (another probe syscall, no thread-sync);
 	// the kernel must then refuse a thread-sync load, so a nil result is only admissible if every thread ends up filtered
 	Divergent bool `json:"divergent"`
+	// Block: the loading thread carries an enclosing filter that answers seccomp(2) with ENOSYS; a correct loader
+	// reports an error, nil is only admissible with every thread filtered
+	Block bool `json:"block"`
 }
 
 type probeRec struct {
@@ -182,6 +185,12 @@ func main() {
 	go func() {
 		runtime.LockOSThread()
 		ll.Tid = probe.Gettid()
+		if cfg.Block {
+			if err := probe.BlockSeccompSyscall(); err != nil {
+				fmt.Fprintln(os.Stderr, "block:", err)
+				os.Exit(3)
+			}
+		}
 		doProbe(ll)
 		seccomp.VerifBeforeInstall = func(prog []syscall.SockFilter, flags seccomp.FilterFlag) {
 			f := uint32(flags)
